@@ -172,6 +172,10 @@ def run(check: Check) -> None:
     from .c13 import engine_init
 
     engine_init(check)  # the representation rebuilds the engine through Engine(...): its terms must be re-pointed to the new engine
+    from .pyroundtrip_sem import constructor_fidelity, py_roundtrip
+
+    py_roundtrip(check)  # PY-sem: repr -> eval -> repr interpreted on model engines, under the three alias settings
+    constructor_fidelity(check)  # R1-sem: what the constructors called by the representation store is what they are given
     if check.tier == "thorough":
         example_signatures(check)
     check.exhaustive_parts += ["constructor parameter x emitted field table for every class with a constructor"]
